@@ -307,19 +307,20 @@ def validateargs(args, log):
     if has_errors:
         sys.exit(1)
 
-def save_to_json_file(args, log, yaml_data):
-    """Save to a JSON file."""
+def render_json_text(args, yaml_data):
+    """Serialize the document as JSON text."""
+    if args.json_indent > -1:
+        return json.dumps(
+            Parsers.jsonify_yaml_data(yaml_data), indent=args.json_indent)
+    return json.dumps(Parsers.jsonify_yaml_data(yaml_data))
+
+def save_to_json_file(args, log, json_text):
+    """Save already serialized JSON text to a JSON file."""
     log.verbose(
         f"Writing changed data as JSON to {args.yaml_file} with"
         f" indent {args.json_indent}.")
     with open(args.yaml_file, 'w', encoding='utf-8') as out_fhnd:
-        if args.json_indent > -1:
-            json.dump(
-                Parsers.jsonify_yaml_data(yaml_data), out_fhnd,
-                indent=args.json_indent)
-        else:
-            json.dump(
-                Parsers.jsonify_yaml_data(yaml_data), out_fhnd)
+        out_fhnd.write(json_text)
 
 def save_to_yaml_file(args, log, yaml_parser, yaml_data, backup_file):
     """Save to a YAML file."""
@@ -386,15 +387,16 @@ def write_document_as_yaml(output_file_name, yaml_data):
 
     return write_yaml
 
-def save_to_file(args, log, yaml_parser, yaml_data, backup_file):
-    """Save as YAML or JSON."""
-    if write_document_as_yaml(args.yaml_file, yaml_data):
-        save_to_yaml_file(args, log, yaml_parser, yaml_data, backup_file)
-    else:
-        save_to_json_file(args, log, yaml_data)
-
 def write_output_document(args, log, yaml, yaml_data):
     """Write the updated document to file or STDOUT."""
+    # Opening the file for writing truncates it.  A document which cannot be
+    # represented as JSON must therefore be discovered before any file is
+    # touched lest the run fail with the original content already gone.
+    json_text = None
+    if (args.yaml_file.strip() != "-"
+            and not write_document_as_yaml(args.yaml_file, yaml_data)):
+        json_text = render_json_text(args, yaml_data)
+
     # Save a backup of the original file, if requested
     backup_file = args.yaml_file + ".bak"
     if args.backup:
@@ -417,8 +419,10 @@ def write_output_document(args, log, yaml, yaml_data):
             else:
                 json.dump(
                     Parsers.jsonify_yaml_data(yaml_data), sys.stdout)
+    elif json_text is None:
+        save_to_yaml_file(args, log, yaml, yaml_data, backup_file)
     else:
-        save_to_file(args, log, yaml, yaml_data, backup_file)
+        save_to_json_file(args, log, json_text)
 
 def _try_load_input_file(args, log, yaml, change_path, new_value):
     """Attempt to load the input data file or abend on error."""
